@@ -64,9 +64,16 @@ def universe(tier, rng):
 def make_case(served, sup, ctxs, rng):
     cfg = {'served': [N.AS_UID[a] for a in served], 'supported': [N.TS_UID[t] for t in sup]}
     start = rng.choice([1, 1, 1, 3, 101])
+    ids = [min(start + 2 * i, 255) if start + 2 * i <= 255 else (start + 2 * i) % 254 | 1 for i in range(len(ctxs))]
+    # the requestor numbers its contexts as it likes: ascending (what this library does), descending, any order
+    how = rng.random()
+    if len(ids) > 1 and len(set(ids)) == len(ids):
+        if how < 0.15:
+            ids.reverse()
+        elif how < 0.35:
+            rng.shuffle(ids)
     rq = {'called': rng.choice(['SCP', 'ANY-SCP', 'X' * 16]), 'calling': rng.choice(['SCU', 'ME', 'Y' * 16]), 'appctx': N.APP_CTX,
-          'ctxs': [{'id': min(start + 2 * i, 255) if start + 2 * i <= 255 else (start + 2 * i) % 254 | 1, 'as': N.AS_UID[a], 'ts': [N.TS_UID[t] for t in l]}
-                   for i, (a, l) in enumerate(ctxs)]}
+          'ctxs': [{'id': ids[i], 'as': N.AS_UID[a], 'ts': [N.TS_UID[t] for t in l]} for i, (a, l) in enumerate(ctxs)]}
     return cfg, rq
 
 
@@ -105,7 +112,13 @@ def main(tier='quick'):
         served = []
         for step in [None] + order:
             if step is not None:
+                # the class may also be configured in the user role, before or after: what is SERVED is what add_scp got
+                as_user = rng.choice(['no', 'before', 'after'])
+                if as_user == 'before':
+                    ent.ae.add_scu(lambda *a: None, [N.AS_UID[step]])
                 ent.add([N.AS_UID[step]])
+                if as_user == 'after':
+                    ent.ae.add_scu(lambda *a: None, [N.AS_UID[step]])
                 served.append(step)
             for which in (ctxs, other, ctxs):
                 cfg, rq = make_case(served, sup, which, rng)
